@@ -106,6 +106,7 @@ func scalarOrVec(t ssa.Type) bool {
 //@   requires cur != nil && result != nil && scalarOrVec(result.Type)
 //@   ensures[result-stored-at-full-width] isStoreInstr(r0) && movBytes(r0) == typeBytes(result.Type)
 //@   ensures[stack-result-loaded-at-full-width] result.Kind == backend.ABIArgKindStack ==> r0.prev != nil && isLoadInstr(r0.prev) && movBytes(r0.prev) == typeBytes(result.Type) && r0.prev.prev == cur
+//@   ensures[narrow-result-fills-its-slot] result.Type == ssa.TypeI32 || result.Type == ssa.TypeF32 ==> movBytes(r0) == 8
 //@   nosafety
 
 // The trampoline through which compiled code calls a Go (host) function copies every parameter into the
